@@ -98,6 +98,8 @@ def snap(obj, depth=0):
 
 
 def snap_model(model):
+    if model is None:
+        return None
     fn = []
     for k, f in model.functions.items():
         d = getattr(f, "__dict__", {})
@@ -367,7 +369,7 @@ class Incarnation:
                     arr = arr.astype(np.dtype(b["a_dtype"]))
             else:
                 arr = np.array([ag[nm] for ag in agents], dtype=np.dtype(b.get("int_dtype", "int64")))
-            out[nm] = self.jnp.array(arr) if form == "jax" else arr
+            out[nm] = self.jnp.array(arr) if form == "jax" else _layout(arr, form)
         assert set(out) == set(recipe["states_order"])
         return out
 
@@ -471,7 +473,15 @@ class Incarnation:
 
     # -- BUILD
     def _op_BUILD(self, op, rec):
-        model, _, _ = self.get_model(op["model"])
+        if op.get("fresh_model"):
+            # get_lcm_function(make_model(spec)): the Model object exists for this build only (the
+            # generated functions do not keep it alive); its address is free for the next object
+            recipe = self.plan["models"][op["model"]]
+            fns, _meta = catalogue.compile_functions(recipe, self.jnp, hit=self._hit, stochastic_deco=self.lcm.mark.stochastic)
+            model = catalogue.build_model(recipe, fns, self.lcm)
+            del fns, _meta
+        else:
+            model, _, _ = self.get_model(op["model"])
         before = snap_model(model)
         try:
             f, templ = self.get_lcm_function(model, targets=op["target"], debug_mode=op["debug"], jit=op["jit"])
@@ -495,7 +505,7 @@ class Incarnation:
             nm: np.asarray(g.to_jax()) for nm, g in {**model.states, **model.choices}.items()
         }
         rec["model"] = op["model"]
-        del recipe
+        del recipe, model
         return None
 
     def _handle(self, op):
@@ -508,7 +518,7 @@ class Incarnation:
     def _op_SOLVE(self, op, rec):
         h = self._handle(op)
         params = self.get_params_obj(op)
-        model = self.models[h["model"]][0]
+        model = self.models[h["model"]][0] if h["model"] in self.models else None
         s_before = (snap(params), snap_model(model))
         try:
             res = h["f"](params)
@@ -563,6 +573,9 @@ class Incarnation:
             raise _Skip(f"value arrays of op {sid} are not available")
         if op.get("transient") and op.get("vform", "asis") in ("np", "jax"):
             return [np.array(a) if op["vform"] == "np" else self.jnp.array(np.asarray(a)) for a in self.vf_objs[sid]]
+        if op.get("vform") == "npF":
+            # value arrays as they come back from a Fortran-ordered store (same values)
+            return [np.asfortranarray(np.asarray(a)) for a in self.vf_objs[sid]]
         if op.get("vform", "asis") == "np":
             if sid not in self.vf_np_objs:
                 self.vf_np_objs[sid] = [np.asarray(a) for a in self.vf_objs[sid]]
@@ -579,7 +592,7 @@ class Incarnation:
         params = self.get_params_obj(op)
         batch = self.get_batch_obj(op)
         vf = self._vf_for(op)
-        model = self.models[h["model"]][0]
+        model = self.models[h["model"]][0] if h["model"] in self.models else None
         kwargs = {"initial_states": batch}
         if vf is not None:
             kwargs["vf_arr_list"] = vf
@@ -740,6 +753,32 @@ class Incarnation:
 
 class _Skip(Exception):
     pass
+
+
+def _layout(arr, form):
+    """Memory layouts in which observed data reach a caller (same values, same dtype): a strided view
+    (every second element of a wider buffer), a negative-stride view, a column of a Fortran-ordered
+    table, a read-only array."""
+    if form == "np_strided":
+        big = np.zeros(2 * len(arr) + 1, dtype=arr.dtype)
+        big[1::2] = arr
+        return big[1::2]
+    if form == "np_revview":
+        return np.ascontiguousarray(arr[::-1])[::-1]
+    if form == "np_fcol":
+        table = np.asfortranarray(np.stack([arr[::-1], arr, arr], axis=1))
+        return table[:, 1]
+    if form == "np_ccol":  # a column of a C-ordered (row-major) data matrix
+        table = np.ascontiguousarray(np.stack([arr, arr[::-1], arr], axis=1))
+        return table[:, 0]
+    if form == "np_ccol_rev":  # the same column of the matrix read bottom-up (rows in reverse order)
+        table = np.ascontiguousarray(np.stack([arr[::-1], arr, arr[::-1]], axis=1))
+        return table[::-1][:, 0]
+    if form == "np_ro":
+        out = arr.copy()
+        out.setflags(write=False)
+        return out
+    return arr
 
 
 class SimLogHandler(logging.Handler):
